@@ -93,12 +93,12 @@ def job(item):
 def build_items(run):
     N = 4 if run.quick else 6
     items = []
-    for pid, text, goals in families.corpus():
-        items.append({"id": pid, "text": text, "goals": goals, "N": N})
+    for pid, text, goals in families.corpus() + families.corpus("corpus_class") + families.symbolic_templates(run.quick, run.seed):
+        items.append({"id": pid, "text": text, "goals": goals, "N": N, "goal_timeout": 40})
     for pid, text, goals in families.repo_benchmarks(run.quick, run.seed):
         items.append({"id": pid, "text": text, "goals": goals, "N": N, "goal_timeout": 40})
     for pid, text, goals in families.generated(run.quick, run.seed):
-        items.append({"id": pid, "text": text, "goals": goals, "N": N})
+        items.append({"id": pid, "text": text, "goals": goals, "N": N, "goal_timeout": 20 if run.quick else 60})
     if run.args.only:
         items = [i for i in items if run.args.only in i["id"]]
     for i, it in enumerate(items):
